@@ -32,7 +32,7 @@ def one(args):
 
 def main():
     dirs = sys.argv[1:] or sorted(glob.glob("/verif/benign/C*"))
-    dirs = [d for d in dirs if os.path.exists(f"{d}/patch.diff")]
+    dirs = [os.path.abspath(d) for d in dirs if os.path.exists(f"{d}/patch.diff")]
     jobs = [(d, p) for d in dirs for p in PROPS]
     bad = 0
     with ProcessPoolExecutor(max_workers=int(os.environ.get("JOBS", "8"))) as ex:
